@@ -10,7 +10,7 @@ program exhaustively, samples deeper programs with -simulate, and prints each pr
 sets.  drive/xsec.cpp executes them through the real CrossSection API and judges every object by an
 independent crossing-number oracle on ToPolygons(), Area(), the exact `Regularized` predicate (integer
 segment predicates), lattice-ness of the output, and operand-order independence."""
-import json, os
+import json, os, time
 import vf, progfam
 
 OWNED = {'pixels', 'winding', 'area', 'regular', 'lattice', 'order', 'finite'}
@@ -52,13 +52,37 @@ class Tally:
         self.foreign = {}      # failure kinds owned by other properties (C05): counted, not judged
 
 
-def run_programs(chk, tally, behaviours, opts, tag, jobs=12, variant='seq', timeout=3000):
+def pdrive(variant, args, behaviours, work, tag, timeout, jobs, per_job=200):
+    """progfam.pdrive with a configurable chunk size (staircase programs are few but heavy)"""
+    from concurrent.futures import ThreadPoolExecutor
+    n = len(behaviours)
+    jobs = max(1, min(jobs, (n + per_job - 1) // per_job))
+    size = (n + jobs - 1) // jobs
+    def one(j):
+        lo = j * size
+        inp = '%s/beh%s.%d.ndjson' % (work, tag, j)
+        out = '%s/res%s.%d.ndjson' % (work, tag, j)
+        vf.write_ndjson(inp, behaviours[lo:lo + size])
+        res, cr = vf.drive(variant, args, inp, out, timeout=timeout)
+        return ({lo + i: r for i, r in res.items()}, [(lo + i, rc, t) for (i, rc, t) in cr])
+    results, crashes = {}, []
+    with ThreadPoolExecutor(max_workers=jobs) as ex:
+        for res, cr in ex.map(one, range(jobs)):
+            for i, r in res.items():
+                r['i'] = i
+            results.update(res); crashes += cr
+    return results, crashes
+
+
+def run_programs(chk, tally, behaviours, opts, tag, jobs=12, variant='seq', timeout=3000, per_job=200):
     """run the programs through mfdrive xsec in parallel chunks; failures of OWNED kinds that repeat when
     re-run become violations"""
     work = '%s/work/%s' % (vf.BUILD, chk.pid)
     os.makedirs(work, exist_ok=True)
     args = ['xsec'] + opts
-    results, crashes = progfam.pdrive(variant, args, behaviours, work, tag, timeout, jobs)
+    t0 = time.time()
+    results, crashes = pdrive(variant, args, behaviours, work, tag, timeout, jobs, per_job)
+    vf.log('[C11] driver %s%s: %d programs in %.0fs' % (tag, ' '.join(opts), len(results), time.time() - t0))
     failing = []
     for i, r in sorted(results.items()):
         tally.n += 1
@@ -105,7 +129,9 @@ def run_programs(chk, tally, behaviours, opts, tag, jobs=12, variant='seq', time
 
 
 def gen(chk, cfg, simulate=None, timeout=900, fams=None):
+    t0 = time.time()
     behs, r = progfam.generate(cfg, module='Xsec', simulate=simulate, timeout=timeout)
+    vf.log('[C11] TLC %s: %d programs, %d states in %.0fs' % (cfg, len(behs), r.distinct, time.time() - t0))
     chk.coverage['states'] = chk.coverage.get('states', 0) + r.distinct
     chk.coverage['transitions'] = chk.coverage.get('transitions', 0) + r.generated
     if fams is not None:
@@ -122,38 +148,48 @@ def main(tier):
     samples = []
     seed = vf.seed()
 
-    # 1. the exact winding oracle itself is model-checked on every catalogue contour (RayIndependent,
-    #    ReverseNegates, GroupCovariant, CentresOffEdges, FillIsRule); the single-contour fills are replayed
-    behs = gen(chk, 'Xsec_single3.cfg' if quick else 'Xsec_single.cfg', fams=fams)
-    run_programs(chk, tally, behs, [], 'single')
-    # 2. EVERY contour set of <= 2 catalogue contours under both fill rules
-    behs = gen(chk, 'Xsec_fill3.cfg' if quick else 'Xsec_fill4.cfg', timeout=1800, fams=fams)
-    run_programs(chk, tally, behs, [], 'fill')
-    samples += [prog_text(json.loads(b)) for b in behs[len(behs) // 3::max(1, len(behs) // 4)][:3]]
+    # TLC: all families are generated concurrently (each run is mostly single-threaded)
+    plan = [  # name, cfg, simulate, timeout
+        # the exact winding oracle itself is model-checked on every catalogue contour (RayIndependent,
+        # ReverseNegates, GroupCovariant, CentresOffEdges, FillIsRule); the single-contour fills are replayed
+        ('single', 'Xsec_single3.cfg' if quick else 'Xsec_single.cfg', None, 1800),
+        # EVERY contour set of <= 2 catalogue contours under both fill rules
+        ('fill', 'Xsec_fill3.cfg' if quick else 'Xsec_fill4.cfg', None, 3000),
+        # EVERY program of two leaves + one Boolean / transform (small family), + two steps (tiny family)
+        ('prog2', 'Xsec_prog2.cfg', None, 1800),
+        ('prog4', 'Xsec_prog4q.cfg' if quick else 'Xsec_prog4.cfg', None, 1800),
+        # seeded random deeper programs (3 leaves, Booleans, BatchBooleans, transforms of any earlier step)
+        ('sim', 'Xsec_sim.cfg', 30 if quick else 1200, 3000),
+        # StairSound: the staircase formula is the fill of the staircase contour (small instances) ...
+        ('stairMC', 'Xsec_stairMC.cfg', None, 900),
+        # ... and staircase ribbons with > 1024 edges: the BVH broad phase of boolean2.cpp
+        ('stair', 'Xsec_stair.cfg', 2 if quick else 6, 2400)]
     if not quick:
-        run_programs(chk, tally, behs[seed % 7::7], ['--jitter=13'], 'fillJ')
-    # 3. EVERY program of two leaves + one Boolean / transform (small family), + two steps (tiny family)
-    behs = gen(chk, 'Xsec_prog2.cfg', fams=fams)
-    sub = behs[seed % 2::2] if quick else behs
-    run_programs(chk, tally, sub, [], 'prog2')
-    samples.append(prog_text(json.loads(behs[len(behs) // 2])))
-    behs = gen(chk, 'Xsec_prog4.cfg', fams=fams)
-    sub = behs[seed % 12::12] if quick else behs
-    run_programs(chk, tally, sub, [], 'prog4')
-    samples.append(prog_text(json.loads(behs[len(behs) // 2])))
-    # 4. seeded random deeper programs (3 leaves, Booleans, BatchBooleans, transforms of any earlier step)
-    behs = gen(chk, 'Xsec_sim.cfg', simulate=60 if quick else 1200, timeout=3000, fams=fams)
-    run_programs(chk, tally, behs, [], 'sim')
-    samples.append(prog_text(json.loads(behs[0])))
+        plan.append(('stairL', 'Xsec_stairL.cfg', 6, 3000))
+    from concurrent.futures import ThreadPoolExecutor
+    def one(job):
+        time.sleep(0.3 * plan.index(job))      # distinct TLC metadirs
+        return gen(chk, job[1], simulate=job[2], timeout=job[3], fams=fams)
+    with ThreadPoolExecutor(max_workers=4 if quick else 3) as ex:
+        B = dict(zip([j[0] for j in plan], ex.map(one, plan)))
+
+    run_programs(chk, tally, B['single'], [], 'single')
+    run_programs(chk, tally, B['fill'], [], 'fill')
+    samples += [prog_text(json.loads(b)) for b in B['fill'][len(B['fill']) // 3::max(1, len(B['fill']) // 4)][:3]]
     if not quick:
-        run_programs(chk, tally, behs[::3], ['--jitter=13'], 'simJ')
-    # 5. staircase ribbons with > 1024 edges: the BVH broad phase of boolean2.cpp
-    gen(chk, 'Xsec_stairMC.cfg', fams=fams)     # StairSound: the staircase formula is the fill of the staircase contour
-    behs = gen(chk, 'Xsec_stair.cfg', simulate=2 if quick else 6, timeout=1800, fams=fams)
+        run_programs(chk, tally, B['fill'][seed % 7::7], ['--jitter=13'], 'fillJ')
+    run_programs(chk, tally, B['prog2'][seed % 2::2] if quick else B['prog2'], [], 'prog2')
+    samples.append(prog_text(json.loads(B['prog2'][len(B['prog2']) // 2])))
+    run_programs(chk, tally, B['prog4'], [], 'prog4')
+    samples.append(prog_text(json.loads(B['prog4'][len(B['prog4']) // 2])))
+    run_programs(chk, tally, B['sim'], [], 'sim')
+    samples.append(prog_text(json.loads(B['sim'][0])))
     if not quick:
-        behs += gen(chk, 'Xsec_stairL.cfg', simulate=6, timeout=2400, fams=fams)
-    run_programs(chk, tally, behs, [], 'stair', jobs=min(12, len(behs)))
-    samples.append(prog_text(json.loads(behs[0])))
+        run_programs(chk, tally, B['sim'][::3], ['--jitter=13'], 'simJ')
+    stairs = B['stair'] + B.get('stairL', [])
+    run_programs(chk, tally, stairs, [], 'stair', per_job=2)
+    samples.append(prog_text(json.loads(stairs[0])))
+    run_programs(chk, tally, B['stairMC'], [], 'stairMC')
 
     chk.coverage.update({
         'traces_validated_against_impl': tally.n,
